@@ -74,6 +74,9 @@ def run(chk):
     # (B1) every call sequence, both roles in lock step: mirror, pending-gate and error invariants
     depth_inv = 6 if chk.quick else 8
     vlib.tlc_mc(chk, "MC_Builder.tla", cfg(chk, "inv", depth_inv, False), workers=8)
+    # unbounded: the counter abstraction of the bookkeeping (BuilderInd) has an inductive invariant containing the mirror and pending-gate
+    # claims, discharged by Apalache; the generation run below checks with TLC that the concrete builder refines it (PROPERTY AbsStep)
+    vlib.apalache_inductive(chk, "BuilderInd.tla")
     # (B2) every behaviour up to the generation depth, replayed on the real Prover/Verifier
     depth_gen = 4 if chk.quick else 5
     r = vlib.tlc_mc(chk, "MC_Builder.tla", cfg(chk, "gen", depth_gen, True), workers=8)
